@@ -31,6 +31,8 @@ def domain(tier):
     if tier == "thorough":
         d += [["word", 250, "bytes"], ["word", 255, "unsigned"], ["word", 9, "signed"]]
     d += [["map", 0, 1], ["map", 2, 3], ["dyn", 0], ["dyn", 1]]
+    # mappings that share the value variable, or the key variable, with the first one
+    d += [["map", 2, 1], ["map", 0, 3]]
     d += [["fixed", 0, "0x1"], ["fixed", 1, "0x1"], ["fixed", 0, "0x2"], ["fixed", 1, "0x2"]]
     # a length that agrees with 0x1 in its low 64 bits (lengths are 256-bit words)
     d += [["fixed", 0, "0x10000000000000001"], ["fixed", 1, "0x10000000000000001"]]
